@@ -30,6 +30,7 @@ Definition F_TIME : fid := 2%nat.
 Definition F_AZI : fid := 3%nat.
 Definition F_ZEN : fid := 4%nat.
 Definition F_SINDEC : fid := 5%nat.
+Definition F_MCWEIGHT : fid := 13%nat.
 
 (* ---------------------------------------------------------------- monad: state + exception,
    the store survives an exception (what a failed mutator leaves behind is modelled) *)
@@ -407,6 +408,36 @@ Definition init_trial (ev : tloc) (p : initp) : M tloc :=
   mdo _ <-- set_fields cur (i_static p) ;;
   ret cur.
 
+(* ---------------------------------------------------------------- constructors that read the data sets
+   (construction is an operation too) *)
+
+(* I3SeasonalVariationTimeScramblingMethod.__init__: per run a mask over the stored `time` column
+   and a selection data.exp[mask] whose length is the run weight *)
+Definition seasonal_masks (runs : list (Z * Z)) (times : list Z) : list (list bool) :=
+  map (fun r => map (fun t => seas_mask (fst r) (snd r) t t) times) runs.
+
+Fixpoint cons_seasonal_loop (e : tloc) (masks : list (list bool)) : M (list Z) :=
+  match masks with
+  | [] => ret []
+  | m :: r =>
+      mdo _ <-- t_getitem e F_TIME ;; mdo _ <-- t_getitem e F_TIME ;;     (* both comparisons of the mask *)
+      mdo s <-- t_select e (SMask m) ;;
+      mdo x <-- rdtab s ;;
+      mdo ns <-- cons_seasonal_loop e r ;;
+      ret (tlen x :: ns)
+  end.
+Definition cons_seasonal (e : tloc) (masks : list (list bool)) : M (Z * list Z) :=
+  mdo bt <-- t_getitem e F_TIME ;;
+  mdo v <-- rdbuf bt ;;
+  mdo ns <-- cons_seasonal_loop e masks ;;
+  ret (seas_n_events (zlen v), ns).
+
+(* MCMultiDatasetSignalGenerator._construct_signal_candidates: data_mc[ev_idx_arr]['mcweight'] *)
+Definition cons_sig_candidates (mc : tloc) (idx : list Z) : M (list Z) :=
+  mdo s <-- t_select mc (SIdx idx) ;;
+  mdo b <-- t_getitem s F_MCWEIGHT ;;
+  rdbuf b.
+
 (* ---------------------------------------------------------------- operations of a history *)
 Inductive op :=
 | GenBkgFixed (i : nat) (m : scr)                                   (* FixedScrambledExpDataI3BkgGenMethod *)
@@ -426,7 +457,9 @@ Inductive op :=
 | Evaluate (i : nat)                                                 (* llhratio evaluation: reads the trial data *)
 | UnblindCopy (i : nat)                                              (* unblind: events = data.exp.copy() (fix cb41ee3) *)
 | DropEvents (i : nat)                                               (* the caller forgets the generated arrays *)
-| DropSig (i : nat).                                                 (* ... only the signal arrays *)
+| DropSig (i : nat)                                                  (* ... only the signal arrays *)
+| ConsSeasonal (i : nat) (masks : list (list bool))                  (* I3SeasonalVariationTimeScramblingMethod(data) *)
+| ConsSigCand (i : nat) (idx : list Z).                              (* signal generator construction, dataset i *)
 
 Definition setroot (l : list (option tloc)) (i : nat) (o : option tloc) : list (option tloc) := upd l i o.
 
@@ -561,6 +594,16 @@ Definition step (o : op) (w : world) : world * res unit :=
       end
   | DropEvents i => (set_sig (set_ev w i None) i None, Ok tt)
   | DropSig i => (set_sig w i None, Ok tt)
+  | ConsSeasonal i masks =>
+      match nth_error (w_exp w) i with
+      | None => (w, Err IndexError)
+      | Some e => on_store w (cons_seasonal e masks) (fun w' _ => w')
+      end
+  | ConsSigCand i idx =>
+      match nth_error (w_mc w) i with
+      | None => (w, Err IndexError)
+      | Some mc => on_store w (cons_sig_candidates mc idx) (fun w' _ => w')
+      end
   end.
 
 (* a history: failing operations leave their partial effects and the history goes on *)
@@ -651,10 +694,11 @@ Definition ex_exp : list (fid * list Z) :=
 Definition ex_mc : list (fid * list Z) :=
   [(F_RA, [110; 111; 112; 113]); (F_DEC, [120; 121; 122; 123]); (F_TIME, [130; 131; 132; 133]);
    (F_AZI, [1; 2; 3; 4]); (F_ZEN, [4; 5; 6; 7]); (F_SINDEC, [0; 0; 0; 0]); (7%nat, [5; 6; 7; 8]);
-   (9%nat, [91; 92; 93; 94])].
+   (9%nat, [91; 92; 93; 94]); (F_MCWEIGHT, [1; 1; 2; 2])].
 Definition ex_w0 : world := init_world [ex_exp; ex_exp] [ex_mc; ex_mc].
 Definition ex_ops : list op :=
-  [ GenBkgFixed 0 (ScrUniform 0 0 100 [50; 150; 7]);
+  [ ConsSeasonal 0 (seasonal_masks [(30, 32); (31, 40)] [32; 31; 30]); ConsSigCand 1 [0; 1; 2; 3];
+    GenBkgFixed 0 (ScrUniform 0 0 100 [50; 150; 7]);
     GenSig 0 2 0 [mkG [1; 3] [([true; true], ([1; 2], [3; 4], [5; 6]))] [false; true]
                       [([0; 2], ([([true; true], ([7; 8], [9; 9], [9; 9]))], [false; true]))]];
     Merge 0;
